@@ -29,8 +29,17 @@ def count_native(constraints):
     return n
 
 
+_Z3_TIMEOUT_SET = [False]
+
+
 def decide(solver, fixes):
     """Satisfiability of solver's constraints + fixes; solver is left unchanged."""
+    if not _Z3_TIMEOUT_SET[0]:
+        # the shard watchdog cannot interrupt a C call: bound every z3 query (no query of the unchanged tree comes near)
+        import z3
+
+        z3.set_param("timeout", 120000)
+        _Z3_TIMEOUT_SET[0] = True
     saved = solver.constraints
     solver.constraints = list(saved) + list(fixes)
     try:
